@@ -1,14 +1,14 @@
 SPECIFICATION Spec
 CONSTANTS
   Names = {"n1"}
-  MaxCreates = 3
-  Slots = {"blocks", "sources", "arrays", "groups", "frames"}
-  LinkSlotsOn = {"esources", "garrays", "gframes"}
+  MaxCreates = 4
+  Slots = {"blocks", "arrays", "tags", "sources", "groups"}
+  LinkSlotsOn = {"refs", "esources", "garrays", "gtags"}
   OneSlotsOn = {}
-  Acts = {"Create", "CreateBad", "Delete", "Link", "One", "Foreign", "Type"}
+  Acts = {"Create", "Link", "Links", "Foreign"}
   MaxLife = 0
   MaxDims = 0
-  MaxSteps = 0
+  MaxSteps = 6
   MaxGen = 0
   EmitActs = {"Create", "CreateBad", "Delete", "DeleteAbsent", "AddLink", "RemoveLink", "SetLinks", "SetOne", "SetAttr", "SetType", "SetDef", "AppendDim", "DeleteDims", "Flush", "Close", "Crash", "Open"}
   EmitRes = "reject"
